@@ -94,6 +94,12 @@ CHECKS = {
          "the CS/CA stream is decoded slot by slot with independent JESD209-4/-5 decoders and must equal the non-overlapped DFI commands at slot latency + phase, operands bit for bit; every operand bit must toggle in every shard; MPC op codes exhaustively.",
     note=SIMNOTE + " lib/jedec_ca.py is a transcription of the JEDEC truth tables from memory of the standards; single rank; vendor SERDES PHYs are not simulated.",
     technique=PBT + "independent JEDEC command decoders (round trip: encode by the PHY, decode by the reference)"),
+ "C14": dict(category="exploration", design_ref="DESIGN.md section 3, C14 and 8",
+    text="_LiteDRAMBISTGenerator/_LiteDRAMBISTChecker and the pattern variants on native ports (width 8-256, realistic two-port slave) and AXI ports (own AXI memory slave), driven exactly like the upstream driver: base, power-of-two range, length, "
+         "random data/address flags, memory pre-loaded by a generator run or by the model, 0-4 corrupted words: write log = own PRBS31/counter model's (address, data) sequence inside [base, end), checker terminates with errors = number of differing sequence positions, "
+         "zero over a faithful memory without address repeats, k corruptions -> exactly k. The range defect (byte mask on the word counter), pinned by an upstream test, is a known finding; error counts stay checked in affected cases against the byte-masked addresses.",
+    note=SIMNOTE + " lib/lfsr.py is cross-checked against a bit-serial PRBS31 recurrence and the pinned memory images of test_bist.py. CSR/CDC wrappers are not covered.",
+    technique=PBT + "an independent LFSR/counter model of the sequence and an error-count oracle over generated corruption sets"),
  "C15": dict(category="fault_enumeration", design_ref="DESIGN.md section 3, C15 and 8",
     text="LiteDRAMNativePortECC (lane data widths 8/16/32/64, burst_cycles 1-8) between a conforming master and a memory stub whose stored words are XOR-ed with a flip mask: EVERY lane x EVERY stored bit position as a single flip "
          "(original data returned, never uncorrectable, counted as corrected exactly once unless it is the overall parity bit) and position PAIRS (quick: all singles + a seeded ~10% sample of pairs; thorough: all pairs, 8 data words each: 1.85 M double flips) "
